@@ -211,7 +211,7 @@ PROPS["C09"] = {
     "engines": [
         {"bin": "hv", "args": ["c09"]},
     ],
-    "min": {"quick": {"exchanges": 3000, "cut_responses": 2500, "complete_responses": 100, "stall_and_refusal_cases": 40, "malformed_upstream_cases": 200, "upstream_records_checked": 2000, "proxy_handler_calls": 100, "load_balancer_histories": 200},
+    "min": {"quick": {"exchanges": 3000, "cut_responses": 2500, "complete_responses": 100, "stall_and_refusal_cases": 40, "malformed_upstream_cases": 200, "upstream_records_checked": 2000, "proxy_handler_calls": 100, "load_balancer_histories": 200, "late_bytes_cases": 15, "concurrent_rotation_rounds": 35},
             "thorough": {"exchanges": 40_000}},
     "assumptions": [],
     "level_text": "proxy_request and proxy_handler are executed against a scripted upstream for every enumerated fault: each valid response cut at every byte offset, non-HTTP answers, refusal, silence, close, trickle; the returned response and its latency are judged against the reference reader's verdict on what the upstream actually sent, and the upstream's record of the relayed request is compared with the client's request.",
